@@ -175,6 +175,39 @@ def run_harness(ctx, scenarios, name, binary=None, shards=None, env=None):
         crash_to_return(ctx, tp)
     return out
 
+def adjudicate_hangs(ctx, by_id, name):
+    """A scenario that made no progress for 150 s of real time under the virtual clock is either a harness artefact (a lock held across
+    a timed wait freezes a synctest bubble, not a real clock) or a call that really never returns. It is re-executed on the REAL clock:
+    there the call returns (the scenario is judged like any other), or it is still stuck after its time limit - a hang of the real code,
+    reported in the trace as a Return with hung = true (C08 judges it; every other property stays inconclusive)."""
+    hangs = [h for h in ctx.extra.get('hangs', []) if h in by_id and not by_id[h].get('realclock')]
+    if not hangs:
+        return []
+    group = []
+    for h in hangs[:4]:
+        s = by_id[h]
+        if s.get('twin') and s['twin'] in by_id and all(g['id'] != s['twin'] for g in group):
+            group.append(by_id[s['twin']])
+        r = dict(s); r['realclock'] = True
+        by_id[h] = r
+        group.append(r)
+    traces = run_harness(ctx, group, name + '-realclock', shards=1)
+    evs = read_traces(traces)
+    still = []
+    for h in hangs[:4]:
+        ret = [e for e in evs.get(h, []) if e.get('event') == 'Return']
+        if not ret or ret[0].get('hung'):
+            still.append(h)
+    left = still + hangs[4:]
+    ctx.extra['hangs'] = left
+    if left:
+        ctx.extra['inconclusive'] = 'scenario %s does not return on the real clock either (a hang of the code under test): see the check of C08' % left[0]
+        ctx.notes.append('hangs on the real clock too: %s' % ', '.join(left[:4]))
+    else:
+        ctx.extra.pop('inconclusive', None)
+        ctx.notes.append('scenario(s) %s froze the virtual clock and were judged on the real clock instead' % ', '.join(hangs))
+    return traces
+
 CRASH_PROPS = ('C09', 'C10', 'C19')      # the properties that state "the process never crashes"
 
 def crash_to_return(ctx, tp):
